@@ -227,6 +227,8 @@ def bounded_builders(seed, dense):
                 else:
                     got = dict(V=len(o.point_set), E=len(o.segment_set), F=len(o.convex_polygons), volume=o.volume(), area=o.area())
                     bad = [kk for kk in exp if not (got[kk] == exp[kk] if kk in "VEF" else close(got[kk], exp[kk]))]
+                    if not close(g.volume(o), exp["volume"]):
+                        bad.append("volume(x) = %r" % g.volume(o))
                     # every vertex on the cylinder / cone surface: distance from the axis
                     axis = [x / hlen for x in hv]
                     for p in o.point_set:
@@ -261,7 +263,7 @@ def bounded_builders(seed, dense):
         # rings at equal latitude steps of a quarter circle divided by n2
         lats = sorted(set(round(math.asin(max(-1.0, min(1.0, (p.z - c.z) / r))) / (math.pi / 2 / n2), 6) for p in o.point_set))
         ok = ok and lats == [float(x) for x in range(-n2, n2 + 1)]
-        ok = ok and close(o.volume(), _poly_volume(faces), 1e-9) and close(o.area(), _poly_area(faces), 1e-9)
+        ok = ok and close(o.volume(), _poly_volume(faces), 1e-9) and close(o.area(), _poly_area(faces), 1e-9) and close(g.volume(o), _poly_volume(faces), 1e-9)
         if not ok:
             fail(klass, "Sphere(n1=%d, n2=%d): V %d (exp %d) F %d (exp %d) volume %r (ref %r) area %r (ref %r) latitudes %r" % (n1, n2, len(o.point_set), Vn, len(o.convex_polygons), Fn, o.volume(), _poly_volume(faces), o.area(), _poly_area(faces), lats), case)
     # parallelepipeds over independent lattice triples
@@ -286,7 +288,7 @@ def bounded_builders(seed, dense):
         cr = lambda u, w: (u[1] * w[2] - u[2] * w[1], u[2] * w[0] - u[0] * w[2], u[0] * w[1] - u[1] * w[0])
         nrm = lambda u: math.sqrt(sum(x * x for x in u))
         exp_area = 2 * (nrm(cr(a, b)) + nrm(cr(a, d)) + nrm(cr(b, d)))
-        ok = len(o.point_set) == 8 and len(o.segment_set) == 12 and len(o.convex_polygons) == 6 and close(o.volume(), abs(det)) and close(o.area(), exp_area)
+        ok = len(o.point_set) == 8 and len(o.segment_set) == 12 and len(o.convex_polygons) == 6 and close(o.volume(), abs(det)) and close(o.area(), exp_area) and close(g.volume(o), abs(det))
         if not ok or [snapshot(x) for x in (base, va, vb, vd)] != before:
             fail(klass, "Parallelepiped: V %d E %d F %d volume %r (|det| %r) area %r (%r), arguments unchanged: %s" % (len(o.point_set), len(o.segment_set), len(o.convex_polygons), o.volume(), abs(det), o.area(), exp_area,
                         [snapshot(x) for x in (base, va, vb, vd)] == before), case)
